@@ -320,13 +320,13 @@ func genTree(r *vf.Rand, d int, odd, allowEmpty bool) node {
 // ---- cases ------------------------------------------------------------------------------
 
 type mech struct {
-	T     string `json:"t"` // default redirect www
-	Code  int    `json:"code,omitempty"`
-	To    string `json:"to,omitempty"`
-	Fails bool   `json:"fails,omitempty"` // the `to` template fails at render time
-	Tmpl  bool   `json:"to_from_header,omitempty"` // `to` is {{ .Request.Header "X-Login-Url" }}; To = what it renders on this request
+	T     string  `json:"t"` // default redirect www
+	Code  int     `json:"code,omitempty"`
+	To    string  `json:"to,omitempty"`
+	Fails bool    `json:"fails,omitempty"`            // the `to` template fails at render time
+	Tmpl  bool    `json:"to_from_header,omitempty"`   // `to` is {{ .Request.Header "X-Login-Url" }}; To = what it renders on this request
 	Login *string `json:"login_url_header,omitempty"` // the X-Login-Url request header (nil = absent)
-	Realm string `json:"realm,omitempty"`
+	Realm string  `json:"realm,omitempty"`
 }
 
 type scenario struct {
